@@ -288,11 +288,13 @@ def oracle(p):
             sp = rng.choice([None, 0.5, tuple(2.0 / nn for _ in range(D))])
             bt = rng.choice([0, 1])
             w = FL.logv(flow, num_iters=iters, bch_terms=bt, sigma=None, spacing=sp, exp_steps=es, align_corners=ac)
+            # derivatives of the brackets: distance of neighbouring grid points of the field's own convention unless given
+            sp_eff = sp if sp is not None else tuple((2.0 / (nn - 1)) if ac else (2.0 / nn) for _ in range(D))
             vv = flow
             for _ in range(iters):
                 uu = FL.expv(-vv, steps=es, align_corners=ac)           # exp(-v) through the negated field, not the inverse flag
                 uu = FL.compose_flows(flow, uu, align_corners=ac)
-                vv = FL.compose_svfs(uu, vv, bch_terms=bt, sigma=None, spacing=sp)
+                vv = FL.compose_svfs(uu, vv, bch_terms=bt, sigma=None, spacing=sp_eff)
             count("logv-flag")
             # batches: item by item
             fb = torch.cat([flow, flow * 0.5, -flow])
@@ -307,11 +309,36 @@ def oracle(p):
             d = float((w - vv).abs().max())
             if not d <= 1e-12:
                 key = "C13:logv:align_corners-not-forwarded" if es > 0 else "C13:logv:exp_steps=0:differs-from-iteration"
+                if sp is None and bt >= 1:
+                    # with the default spacing: is it the bracket scaling?  compare with the iteration using 2/(n-1) instead
+                    alt = flow
+                    for _ in range(iters):
+                        uu = FL.expv(-alt, steps=es, align_corners=ac)
+                        uu = FL.compose_flows(flow, uu, align_corners=ac)
+                        alt = FL.compose_svfs(uu, alt, bch_terms=bt, sigma=None, spacing=None)
+                    if float((w - alt).abs().max()) <= 1e-12:
+                        key = f"C13:logv:bracket-spacing:align_corners={ac}"
                 fail(key,
                      f"logv(flow, num_iters={iters}, bch_terms={bt}, spacing={sp}, exp_steps={es}, align_corners={ac}) differs by {d:.3g} (field "
                      f"amplitude {float(v.abs().max()):.2g}, {nn}^{D} grid) from the iteration v <- BCH(flow o exp(-v), v) assembled from expv(-v), "
                      f"compose_flows(., ., align_corners={ac}) and compose_svfs with the same options",
                      {"D": D, "n": nn, "ac": ac, "num_iters": iters, "exp_steps": es, "spacing": sp, "bch_terms": bt})
+    # ---- regression (repaired in /repo 15e1ee8): logv(align_corners=False) must scale its brackets with spacing 2/n ----
+    for D in (2, 3):
+        nn = 5
+        x = Grid(size=(nn,) * D, align_corners=False).coords(dtype=torch.float64).movedim(-1, 0)
+        v = torch.stack([-0.4 * x[a] + 0.1 * x[(a + 1) % D] for a in range(D)]).unsqueeze(0)
+        flow = FL.expv(v, steps=6, align_corners=False)
+        w = FL.logv(flow, num_iters=1, bch_terms=1, sigma=None, exp_steps=6, align_corners=False)
+        uu = FL.compose_flows(flow, FL.expv(-flow, steps=6, align_corners=False), align_corners=False)
+        ref = FL.compose_svfs(uu, flow, bch_terms=1, sigma=None, spacing=tuple(2.0 / nn for _ in range(D)))
+        count("logv-bracket-spacing")
+        d = float((w - ref).abs().max())
+        if not d <= 1e-12:
+            fail("C13:logv:bracket-spacing:align_corners=False",
+                 f"logv(flow, num_iters=1, bch_terms=1, align_corners=False) on a {nn}^{D} grid differs by {d:.3g} from the iteration whose "
+                 f"bracket derivatives use the grid point distance 2/n (field amplitude {float(v.abs().max()):.2g}): brackets scaled by (n-1)/n",
+                 {"D": D, "n": nn})
     return {"fails": fails, "counts": counts}
 
 
